@@ -96,6 +96,8 @@ def shape_sets(rng, thorough):
     sh["skewed"] = rnd_set(rng, 25, 2, 12, b"", b"aaaaaaaaaaaaaaaabbbbc")
     # dense: consecutive strings differ in one character (decimal numerals), enough of them for big buckets
     sh["numerals600"] = sorted(str(i).encode() for i in range(600))
+    # a text larger than 64 KB: offsets need more than 16 bits, every constructor buffer is reallocated
+    sh["big80k"] = rnd_set(rng, 5200, 4, 24, b"", b"abcdefghijklmnop")
     if thorough:
         sh["rand200"] = rnd_set(rng, 200, 1, 25)
         sh["long400"] = rnd_set(rng, 15, 300, 400, b"", b"xyz")
